@@ -65,13 +65,16 @@ def check(ctx, filt):
            'the PID (low nibble) is captured on the PID edge: %s' % [q.fmt(a) for a in cp])
     pidreg = cp[0].lhs.canon() if cp else 'current_pid'
     into_r = fsm.in_edges(R)
-    ctx.need(len(into_r) == 1, 'the single edge into the reporting state')
-    ce = into_r[0]
-    crc_lits = [l for l in ce.guard if l.pos and isinstance(l.e, E) and l.e.op == '==' and
+    ctx.need(into_r, 'edges into the reporting state')
+
+    def crc_lit(e):
+        return [l for l in e.guard if l.pos and isinstance(l.e, E) and l.e.op == '==' and
                 any(x.op == 'cat' and len(x.args) == 5 for x in l.e.args) and
                 any(x.canon() == 'self.utmi.rx_data[3:8]' for x in l.e.args)]
-    ctx.ob('C01.crc-check', 'USBTokenDetector.crc-edge' + tag, len(crc_lits) == 1, ce.loc,
-           'the reporting state is entered only when the 5-bit CRC computed over the token equals rx_data[3:8]: %s' % q.fmt(ce)[:300])
+    for e in into_r:
+        ctx.ob('C01.crc-check', 'USBTokenDetector.%s->report%s' % (_role(fsm, e.src, R), tag), len(crc_lit(e)) == 1, e.loc,
+               'the reporting state is entered only when the 5-bit CRC computed over the token equals rx_data[3:8]: %s' % q.fmt(e)[:300])
+    ce = sorted(into_r, key=lambda e: -len(crc_lit(e)))[0]
     p = find_path(fsm, init, R, edge_ok=lambda e: e is not ce)
     ctx.ob('C01.crc-check-dominates', 'USBTokenDetector.init=>report.crc' + tag, p is None, ce.loc,
            'a path reaches the reporting state without the CRC5 comparison: %s' % [(e.src, e.dst) for e in p or []])
@@ -79,7 +82,7 @@ def check(ctx, filt):
     s1 = pe.dst
     e1 = [e for e in fsm.out_edges(s1) if e.dst not in (init,) and reaches(fsm, e.dst, R, avoid={init}) or e.dst == R]
     e1 = [e for e in fsm.out_edges(s1) if e.dst != init and (e.dst == R or reaches(fsm, e.dst, R, avoid={init}))]
-    ok = len(e1) == 1 and q.has(e1[0], RXV) and e1[0].dst == ce.src and ce.src != s1 and q.has(ce, RXV)
+    ok = len(e1) == 1 and len(into_r) == 1 and q.has(e1[0], RXV) and e1[0].dst == ce.src and ce.src != s1 and q.has(ce, RXV)
     ctx.ob('C01.three-bytes', 'USBTokenDetector.byte-chain' + tag, ok, fsm.state_loc[s1],
            'exactly two valid-byte edges lead from the PID state to the reporting state (PID + 2 bytes): %s' % [q.fmt(e) for e in e1])
     if ok:
